@@ -89,14 +89,15 @@ def strict_report(cfg, w_in, w_out, floor=1.0):
 
 def bounds_report(cfg, w_out, tol=0.0):
   fails = []
+  cast = np.asarray(w_out).dtype.type if np.asarray(w_out).dtype.kind == "f" else np.float32   # the value the op compares against
   if cfg.get("omin") is not None:
     lo = float(np.min(w_out))
-    if not lo >= core.f32(cfg["omin"]) - tol:
-      fails.append(("lower", lo, core.f32(cfg["omin"])))
+    if not lo >= float(cast(cfg["omin"])) - tol:
+      fails.append(("lower", lo, float(cast(cfg["omin"]))))
   if cfg.get("omax") is not None:
     hi = float(np.max(w_out))
-    if not hi <= core.f32(cfg["omax"]) + tol:
-      fails.append(("upper", hi, core.f32(cfg["omax"])))
+    if not hi <= float(cast(cfg["omax"])) + tol:
+      fails.append(("upper", hi, float(cast(cfg["omax"]))))
   return fails
 
 
@@ -183,7 +184,8 @@ def gen_cases(ctx):
         w = None  # built in run_case from the seed below (keeps replay exact: stored after build)
       yield {"kind": entry, "cfg": cfg, "mode": mode, "kclass": kclass, "w": w, "kscale": kscale,
              "kseed": int(rng.randint(2**31 - 1)), "labels": labels,
-             "exec": modes.pick(rng, (0.7, 0.3, 0.0), allow=("eager", "graph"))}
+             "exec": modes.pick(rng, (0.7, 0.3, 0.0), allow=("eager", "graph")),
+             "dtype": "float64" if rng.rand() < .12 else "float32"}
       i += 1
 
 
@@ -214,7 +216,9 @@ def run_case(ctx, case):
   ctx.cls(*case.get("labels", []))
   ctx.cls("entry:" + kind, "mode:" + case["mode"], "kernel:" + str(case.get("kclass") or case["mode"]))
   ex = case.get("exec", "eager")
-  ctx.cls("exec:" + ex)
+  dt = case.get("dtype", "float32")
+  ctx.cls("exec:" + ex, "dtype:" + dt)
+  w = w.astype(dt)
   floor = 1.0
   if case.get("kscale"):
     floor = 0.0
@@ -249,7 +253,7 @@ def run_case(ctx, case):
   else:
     mstep = bool(case["kseed"] % 2)
     layer = ll.Lattice(units=cfg["units"], monotonic_at_every_step=mstep,
-                       num_projection_iterations=cfg["iters"], **kw)
+                       num_projection_iterations=cfg["iters"], **dict(kw, **({} if dt == "float32" else {"dtype": dt})))
     shape = (None, len(cfg["sizes"])) if cfg["units"] == 1 else (None, cfg["units"], len(cfg["sizes"]))
     layer.build(shape)
     layer.kernel.assign(w)
@@ -267,4 +271,4 @@ def run_case(ctx, case):
               info={"entry": site, "moved": d, "input_violation": every_in}, ratio=d / t)
   work = strict_in > core.REL_TOL * scale_in
   nontrivial = (has_strict or has_bounds) and (work or feasible_in)
-  return nontrivial, core.digest([cfg, kind, ex, core.arr_digest(w)])
+  return nontrivial, core.digest([cfg, kind, ex, dt, core.arr_digest(w)])
